@@ -82,6 +82,16 @@ def run_format_project(ctx, eng, k, stdin):
         cell = e.ref_to(s_, m.items[0], True, 'owned')
         return Tup([cell, bv_const(0, 'usize')], 'OwnedIter')
     eng.stub(r'^<BTreeMap<.*> as (std::iter::)?IntoIterator>::into_iter$', map_into_iter, 'BTreeMap::into_iter over the k modules')
+    def owned_next(e, s_, a, c):
+        it = e.read_ref(s_, a[0])
+        cell, pos = it.items
+        seq = e.read_ref(s_, cell)
+        p_ = pos.concrete()
+        if p_ >= len(seq.items):
+            return Enum('Option', 0, {})
+        e.write_ref(s_, a[0], Tup([cell, bv_const(p_ + 1, 'usize')], 'OwnedIter'))
+        return Enum('Option', 1, {1: Tup([seq.items[p_]])})
+    eng.stub(r'btree_map::IntoIter<.*> as (std::iter::)?Iterator>::next$', owned_next, 'btree_map::IntoIter::next over the k modules (when the code loops instead of filtering)')
     eng.stub(r'btree_map::IntoIter<.*> as (std::iter::)?Iterator>::filter::<', lambda e, s_, a, c: Tup([a[0], a[1]], 'Filter'), 'Iterator::filter (lazy; the real closure decides)')
 
     def mod_index(e, s_, v):
